@@ -201,6 +201,31 @@ func Run(r *core.Report, env *build.Env) {
 			}
 		}
 	}
+	// the functions marked o2 once more on the module compiled at -O 2, where kddp passes a value
+	// argument uncopied to a parameter its annotator found constant
+	cm2, err := env.CompileDDP("c17o2", x.src, 2)
+	if err != nil || cm2.Mod == nil {
+		r.EngineFailf("compile at -O 2: %v", err)
+		return
+	}
+	r.Programs++
+	x2 := *x
+	x2.mod, x2.opt = cm2.Mod, 2
+	x2.inits = initOrder(cm2.Mod)
+	for _, f := range funcs {
+		f := f
+		if !f.o2 || (only != "" && !strings.Contains(f.name, only)) {
+			continue
+		}
+		hi := maxA
+		if f.maxA > 0 && f.maxA < hi {
+			hi = f.maxA
+		}
+		for n := f.minA; n <= hi; n++ {
+			n := n
+			cells = append(cells, func() { x2.cell(f, n, 0, 0) })
+		}
+	}
 	llh.RunParallel(llh.Wrap(r, cells), 16)
 }
 
@@ -234,6 +259,9 @@ func initOrder(m *llread.Module) []string {
 
 func (x *ctx) cell(f fn, n, m, w int) {
 	name := fmt.Sprintf("%s/n%d", f.name, n)
+	if x.opt != 0 {
+		name = fmt.Sprintf("O%d/%s", x.opt, name)
+	}
 	for _, p := range f.params {
 		if p == pListB || p == pTextB {
 			name += fmt.Sprintf("m%d", m)
